@@ -156,4 +156,15 @@ Proof.
   specialize (Bp s Hs Hss i ltac:(lia)). specialize (Bq s Hs Hss i ltac:(lia)).
   rewrite !(map2_nth _ _ _ 0 0 0) by lia. rewrite nmax_R, nmin_R. unfold Rmax, Rmin. repeat destruct (Rle_dec _ _); cbn [T RN] in *; lra.
 Qed.
+Lemma penv_sound p q w r : WF steps q -> (S_ p w \/ (WF steps p /\ S_ q w)) -> WF steps p -> penv RN steps plo phi p q = Ok r -> S_ r w.
+Proof.
+  intros Wq HS Wp E. destruct Wp as [Hl Hr _ _ _]. destruct Wq as [Hl' Hr' _ _ _].
+  assert (Hu : length w = steps) by (destruct HS as [S1|[_ S1]]; [destruct (S_len p w S1) as (_ & _ & H)|destruct (S_len q w S1) as (_ & _ & H)]; exact H).
+  unfold penv, mk_staircase in E. cbn [T RN] in *.
+  apply (mk_sound steps plo phi false (map2 (@nmin RN) (fst p) (fst q)) (map2 (@nmax RN) (snd p) (snd q)) w r); [apply map2_len_n; assumption|apply map2_len_n; assumption|left|exact E].
+  split; [rewrite (map2_len_n _ _ _ steps Hl Hl'); exact Hu|]. split; [rewrite (map2_len_n _ _ _ steps Hl Hl'), (map2_len_n _ _ _ steps Hr Hr'); reflexivity|].
+  intros s Hs Hss i Hi. rewrite (map2_len_n _ _ _ steps Hl Hl') in Hi.
+  rewrite !(map2_nth _ _ _ 0 0 0) by lia. rewrite nmax_R, nmin_R.
+  destruct HS as [(_ & (_ & _ & B))|(_ & (_ & (_ & _ & B)))]; specialize (B s Hs Hss i ltac:(lia)); unfold Rmax, Rmin; repeat destruct (Rle_dec _ _); cbn [T RN] in *; lra.
+Qed.
 End Ops2.
